@@ -65,7 +65,7 @@ class Zero:
     def __repr__(self):
         return "zero"
 
-    adjoint = __neg__ = __mul__
+    adjoint = __neg__ = __rmul__ = __mul__
 
 
 zero = Zero()
